@@ -184,3 +184,57 @@ func overlapOnFileStore(run *vk.Run, scratch string) {
 		run.Violation("resume:overlapping-publish-on-file-store", fmt.Sprintf("SQLite file (default options) with a backlog of %d events; an event published by another goroutine was appended while the subscription replayed and dispatched after it had gone live: SubscribeWithReplay returned %v, %d backlog events missing, %d delivered more than once, out of order: %v, the overlapping event was delivered %d times (want 1)", backlog, err, missing, dup, outOfOrder, count[5000]), nil)
 	}
 }
+
+// ctxTracker is an offset tracker that, like a networked one, refuses to write for a caller whose
+// context has ended.
+type ctxTracker struct{ inner *ebu.MemoryStore }
+
+func (c ctxTracker) SaveOffset(ctx context.Context, id string, off ebu.Offset) error {
+	if err := ctx.Err(); err != nil {
+		return err
+	}
+	return c.inner.SaveOffset(ctx, id, off)
+}
+func (c ctxTracker) LoadOffset(ctx context.Context, id string) (ebu.Offset, error) {
+	if err := ctx.Err(); err != nil {
+		return "", err
+	}
+	return c.inner.LoadOffset(ctx, id)
+}
+
+// publishContextEndsInHandler: the context of one publish ends while the subscription's handler is
+// still running for it (a request-scoped context). The subscription was made with a context of its
+// own that is still live: the event's position is saved, and a restart does not deliver it again.
+func publishContextEndsInHandler(run *vk.Run) {
+	ctx := context.Background()
+	for variant := 0; variant < 2; variant++ {
+		mem, tr := ebu.NewMemoryStore(), ctxTracker{ebu.NewMemoryStore()}
+		newBus := func() *ebu.EventBus { return ebu.New(ebu.WithStore(mem), ebu.WithSubscriptionStore(tr)) }
+		bus := newBus()
+		var got []int
+		var cancel2 context.CancelFunc
+		h := func(e tA) {
+			got = append(got, e.ID)
+			if e.ID == 2 && cancel2 != nil {
+				cancel2() // the request that published this event is over
+			}
+		}
+		var opts []ebu.SubscribeOption
+		if variant == 1 {
+			opts = append(opts, ebu.Sequential())
+		}
+		err := ebu.SubscribeWithReplay(ctx, bus, "request-scoped", h, opts...)
+		ebu.Publish(bus, tA{ID: 1})
+		var ctx2 context.Context
+		ctx2, cancel2 = context.WithCancel(ctx)
+		ebu.PublishContext(bus, ctx2, tA{ID: 2})
+		cancel2 = nil
+		bus2 := newBus()
+		err2 := ebu.SubscribeWithReplay(ctx, bus2, "request-scoped", h, opts...)
+		ebu.Publish(bus2, tA{ID: 3})
+		run.Case(fmt.Sprintf("publish context ends while the handler runs|seq%v", variant == 1), true)
+		if err != nil || err2 != nil || fmt.Sprint(got) != "[1 2 3]" {
+			run.Violation("resume:redelivered-after-the-publish-context-ended", fmt.Sprintf("event 2 was published with a context that ended while the subscription's handler was running for it (the subscription's own context is live; the offset tracker refuses callers whose context has ended); after a restart the subscription had received %v over both lives (errors %v / %v), want [1 2 3]", got, err, err2), nil)
+		}
+	}
+}
